@@ -19,7 +19,7 @@ type.
 import operator
 from pprint import pprint
 
-from .core import Path, T, S, Spec, glom, UnregisteredTarget, GlomError, PathAccessError, UP
+from .core import Path, T, S, Spec, Val, glom, UnregisteredTarget, GlomError, PathAccessError, UP
 from .core import TType, register_op, TargetRegistry, bbrepr, PathAssignError, arg_val, _assign_op
 
 
@@ -176,7 +176,8 @@ class Assign:
 
             # the rest of the path applies to the object being built, not to the scope
             remaining_path = self._orig_path.from_t()[pae.part_idx + 1:]
-            val = scope[glom](self.missing(), Assign(remaining_path, val, missing=self.missing), scope)
+            # val is already evaluated: Val() keeps it from being evaluated (and copied) again
+            val = scope[glom](self.missing(), Assign(remaining_path, Val(val), missing=self.missing), scope)
 
             op, arg = self._orig_path.items()[pae.part_idx]
             path = self._orig_path[:pae.part_idx]
